@@ -46,6 +46,9 @@ def base_rules(rng):
         rules[0]["description"] = "CC ${out}"
     return rules
 
+DL_RULES = [{"name": "GIT_DOWNLOAD", "cmd": "D=$$(dirname ${out}); git clone ${url} -b ${commit} $$D && touch ${out}"},
+            {"name": "GIT_PATCH", "cmd": "D=$$(dirname ${out}); git -C $$D am ${in} && touch ${out}"}]
+
 MULTIKEY = False      # focus == 'maps': YAML maps with several keys (document order matters)
 
 def dep_list(rng, names, nmax=3, p_opt=0.4, p_if=0.2):
@@ -102,6 +105,14 @@ def gen_module(rng, n, names, ctx_choice, penv, pc, pu, focus):
                 srcs.append(d)
             m["sources"] = srcs
         if pick(rng, 0.03 if focus != "build" else 0.08): m["is_global_build_dep"] = True
+        # downloaded sources (nothing is fetched at generation time: tag files, phony statements, aliases)
+        if pick(rng, 0.12 if focus == "build" else 0.04):
+            src = {"git": {"url": "https://example.org/%s.git" % n, "commit": "c0ffee%d" % rng.randint(0, 9)}}
+            if pick(rng, 0.08): src = {"git": {"url": "u", "branch": "main"}}          # unsupported kind
+            m["download"] = dict(src, **({"patches": ["000%d.patch" % k for k in range(rng.randint(1, 2))]} if pick(rng, 0.3) else {}),
+                                 **({"dldir": "ext/" + n} if pick(rng, 0.2) else {}))
+        elif pick(rng, 0.04 if focus == "build" else 0.01):
+            m["srcdir"] = "${build-dir}/dl/./%s/sub" % rng.choice(names)                # sources inside another module's download
     env = {}
     for scope in ("local", "export", "global"):
         e = rand_env(rng, penv, pool=VARS)
@@ -183,6 +194,7 @@ def gen_project(rng, size="small", features=None, focus=None):
     for i in range(rng.randint(1, 3)):
         a = {"name": "app%d" % i, "sources": ["main%d.c" % i]}
         if pick(rng, 0.15): a["context"] = rng.choice(ctx_all_names)
+        elif pick(rng, 0.12) and len(ctx_all_names) >= 2: a["context"] = rng.sample(ctx_all_names, 2)   # one app per listed context
         dl = dep_list(rng, names, nmax=4)
         if dl: a[rng.choice(["selects", "depends"])] = dl
         if pick(rng, 0.15): a["conflicts"] = [rng.choice(names)]
@@ -195,6 +207,17 @@ def gen_project(rng, size="small", features=None, focus=None):
         if env: a["env"] = env
         if pick(rng, 0.08): a["tasks"] = {rng.choice(["t1", "t4"]): rand_task(rng, names)}
         apps.append(a)
+        if pick(rng, 0.08) and len(ctx_all_names) >= 2 and not isinstance(a.get("context"), list):
+            # the same app name declared again for another context (names are unique per context only)
+            other = [c for c in ctx_all_names if c != a.get("context", "default")]
+            apps.append(dict(a, context=rng.choice(other), sources=["alt%d.c" % i]))
+    seen_dl = set()
+    for m in modules:
+        if "download" in m:
+            if m["name"] in seen_dl and not pick(rng, 0.1): del m["download"]      # same name in two contexts: one download dir
+            seen_dl.add(m["name"])
+    if any("download" in m for m in modules):
+        contexts[0]["rules"] += DL_RULES if pick(rng, 0.85) else DL_RULES[:1] if pick(rng, 0.5) else []
     doc = {"contexts": contexts, "builders": builders}
     files = {"laze-project.yml": [doc]}
     if not layout:
